@@ -18,7 +18,7 @@ ASSUMPTIONS = [
     "with-metadata listings are parsed back for hash names that Meta has a field for (md5, md5-dos2unix, etag, checksum); other names cannot be represented in that form",
 ]
 MONITORS = "projection of every entry compared before/after each persistent form"
-REQUIRED_COUNTERS = ["db_locations_spelled_through_the_environment", "written_indexes_with_unloadable_directories", "writes_through_a_view", "sqlite_rollbacks", "large_indexes", "same_key_histories", "sqlite_lazy_roundtrips", "json_roundtrips", "db_roundtrips", "sqlite_roundtrips", "dict_roundtrips", "tree_list_roundtrips", "sqlite_root_key_cases", "falsy_field_entries"]
+REQUIRED_COUNTERS = ["dicts_converted_twice", "trees_listed_again_after_an_entry_was_replaced", "db_locations_spelled_through_the_environment", "written_indexes_with_unloadable_directories", "writes_through_a_view", "sqlite_rollbacks", "large_indexes", "same_key_histories", "sqlite_lazy_roundtrips", "json_roundtrips", "db_roundtrips", "sqlite_roundtrips", "dict_roundtrips", "tree_list_roundtrips", "sqlite_root_key_cases", "falsy_field_entries"]
 
 
 def mproj(m):
@@ -328,6 +328,16 @@ def run_shard(ctx):
                     e2 = DataIndexEntry.from_dict(e.to_dict())
                     if proj(e2) != proj(e):
                         res.violation("dicts/entry", f"entry dict round trip lossy: {proj(e)} -> {proj(e2)}", case=case, detail={"entry": repr(e)})
+                    # one decoded dictionary may be converted more than once (it fills two indexes, say): same answer each time
+                    d_ = e.to_dict()
+                    first_, second_ = DataIndexEntry.from_dict(d_), DataIndexEntry.from_dict(d_)
+                    res.count("dicts_converted_twice")
+                    if proj(first_) != proj(e) or proj(second_) != proj(e):
+                        res.violation("dicts/entry/converted-twice", f"the same entry dictionary converted twice: {proj(first_)} then {proj(second_)}, written from {proj(e)}", case=case, detail={"entry": repr(e)})
+                    if h is not None:
+                        hd_ = h.to_dict()
+                        if hproj(HashInfo.from_dict(hd_)) != hproj(h) or hproj(HashInfo.from_dict(hd_)) != hproj(h):
+                            res.violation("dicts/hash-info/converted-twice", f"the same HashInfo dictionary converted twice differs: {h.to_dict()}", case=case, detail={"hash": repr(h)})
             else:
                 # hash names that a with-metadata listing can carry are the ones Meta has a field for
                 name = rng.choice(["md5", "md5-dos2unix", "etag", "checksum"])
@@ -351,6 +361,18 @@ def run_shard(ctx):
                     exp[k] = (mproj(mm), val)
                 res.count("tree_list_roundtrips")
                 res.nontrivial("tree", sorted(exp.items(), key=repr), name)
+                if rng.random() < 0.4:
+                    # the tree has been listed before and one of its entries replaced since (same number of entries)
+                    t.as_list(with_meta=True)
+                    t.as_list()
+                    k = rng.choice(sorted(exp))
+                    m = rmeta(rng) or Meta()
+                    m.isdir = False
+                    val = "%032x" % rng.getrandbits(128)
+                    setattr(m, field, None)
+                    t.add(k, m, HashInfo(name, val))
+                    exp[k] = (mproj(m), val)
+                    res.count("trees_listed_again_after_an_entry_was_replaced")
                 back = Tree.from_list(t.as_list(with_meta=True), hash_name=name)
                 got = {}
                 for k, m2, h2 in back:
